@@ -215,7 +215,7 @@ def run_property(res, prop, tier, seed, replay, prop_files):
     ob = obligations_or_violation(res, prop_files)
     wd = workdir("C16_strat")
     rng = random.Random(seed + 17)
-    n = {"quick": 160, "thorough": 3000}[tier]
+    n = tier_size(tier, 160, 3000)
     if replay and json.load(open(replay)).get("component") == "strategy":
         scs = [json.load(open(replay))["scenario"]]
     else:
